@@ -118,10 +118,13 @@ impl RcvdJournal {
     }
 
     fn on_rcvd_ack(&mut self, ack_frame: &AckFrame) {
-        let acked_pns: std::collections::HashSet<_> = ack_frame
+        // Walk the few packets of ours that carried an ACK, not every number the peer claims to
+        // acknowledge: the ranges are attacker-chosen and may span up to 2^62 numbers.
+        let acked_pns: std::collections::HashSet<_> = self
+            .packet_include_ack
             .iter()
-            .flat_map(|range| range.clone())
-            .filter(|pn| self.packet_include_ack.contains(pn))
+            .copied()
+            .filter(|pn| ack_frame.iter().any(|range| range.contains(pn)))
             .collect();
 
         self.packet_include_ack.retain(|pn| !acked_pns.contains(pn));
